@@ -347,6 +347,9 @@ class Analysis:
     def on_suspend(self, ip, node, term, st, fr):
         return st
 
+    def iter_may_raise(self, ip, it):
+        return False
+
     # classification of opaque awaits ------------------------------------
     def suspends(self, ip, term):
         return ip.term_may_suspend(term)
@@ -894,6 +897,9 @@ class Interp:
             if r is not None:
                 o.absorb(r, nxt=True)
                 continue
+            if it[0] in ('gen', 'call') and self.an.iter_may_raise(self, it):
+                o.exc.append((x.note(self.where(s, fr), "iterating %s raises" % T.show(it, 2)),
+                              ('Raise', None, T.mk(('unk', 'iteration'))), s))
             folded = self.try_fold(s, it, x, fr)
             if folded is not None:
                 o.nxt += folded
@@ -1046,7 +1052,7 @@ class Interp:
                     return None
                 for kind, lst in (('next', r.nxt), ('cont', r.cont), ('brk', r.brk)):
                     for x in lst:
-                        if x.auto != st.auto:
+                        if x.auto != b.auto:
                             return None
                         fv = x.var(fr.fid, f)
                         new = frozenset((k, val) for k, val in x.facts.items()
@@ -1128,11 +1134,11 @@ class Interp:
             if r.exc or r.brk or scratch.exc:
                 return None
             for x in r.nxt + r.cont:
-                if x.auto != st.auto:
+                if x.auto != b.auto:
                     return None
                 stay.append(frozenset((k, v) for k, v in x.facts.items() if st.facts.get(k) != v))
             for (x, t, node) in r.ret:
-                if x.auto != st.auto or T.contains(t, elem):
+                if x.auto != b.auto or T.contains(t, elem):
                     return None
                 rets.append((t, node, frozenset((k, v) for k, v in x.facts.items() if st.facts.get(k) != v)))
         out = Out()
